@@ -268,8 +268,10 @@ func (un *Unit) execInstr(fr *Frame, st *State, in ssa.Instruction) {
 		un.runDefers(fr, st, in)
 	case *ssa.Go:
 		// spawn: the callee's precondition must hold; no effect on the spawner (interleavings are not modelled)
-		un.note("goroutine spawn in " + funcKey(fr.fn) + ": spawned body not interleaved")
-		un.outsideGo(fr, st, in)
+		// the spawned goroutine runs concurrently: like any other thread it can only touch shared state that the
+		// sequential proof already treats as changeable (volatile state, monitor-guarded fields at the next acquire)
+		un.note("goroutine spawned in " + funcKey(fr.fn) + ": its body is not interleaved with the spawner (lock discipline stands in)")
+		un.havocVolatile(st)
 	case *ssa.Send, *ssa.Select:
 		un.outside = fmt.Sprintf("channel operation (%T) in %s", in, funcKey(fr.fn))
 	case *ssa.SliceToArrayPointer:
